@@ -14,3 +14,4 @@ import AriesVerif.C10.Rot
 #print axioms Conn.Rot.C10_rotation_only_that_connection
 #print axioms Conn.Rot.C10_rotation_sender_is_sub
 #print axioms Conn.Rot.C10_rotation_history
+#print axioms Conn.Rot.C10_thread_ids_do_not_collide
